@@ -5637,8 +5637,13 @@ def merge_parts(parts, reassign="voice"):
         ).astype(int)
         for p in parts
     ]
-    # find the maximum number of voices for each part (voice numbers start from 1)
-    maximum_voices = [max(unique_voice, default=1) for unique_voice in unique_voices]
+    # the range of voice numbers each part occupies: from 1 (or from a lower
+    # number, if the part uses one, e.g. voices counted from 0) to its largest
+    lowest_voices = [min(min(unique_voice, default=1), 1) for unique_voice in unique_voices]
+    maximum_voices = [
+        max(unique_voice, default=1) - low + 1
+        for unique_voice, low in zip(unique_voices, lowest_voices)
+    ]
     # find the maximum number of staves for each part
     maximum_staves = [max(unique_staff, default=1) for unique_staff in unique_staves]
 
@@ -5715,7 +5720,12 @@ def merge_parts(parts, reassign="voice"):
                 )
                 if reassign == "voice":
                     if isinstance(e, GenericNote):
-                        e.voice = e.voice + sum(maximum_voices[:p_ind])
+                        e.voice = (
+                            e.voice
+                            - lowest_voices[p_ind]
+                            + 1
+                            + sum(maximum_voices[:p_ind])
+                        )
                 elif reassign == "staff":
                     if isinstance(e, (GenericNote, Words, Direction, Clef)):
                         e.staff = (e.staff if e.staff is not None else 1) + sum(
